@@ -141,6 +141,23 @@ package jd
 //@ contract validHunk
 //@   opaque
 
+// The merge reader builds one hunk per leaf; a hunk path must not share storage with the path being
+// extended for the sibling keys (either the callee clones before storing, or every caller hands over
+// a path it owns).
+//@ contract readMergeInto
+//@   noretain p
+//@   requires validDiff(d) && validNodes(p) && validNode(n)
+//@   ensures validDiff(ret0)
+//@   loop "range n" invariant validDiff(d)
+//@   carries C18
+
+//@ contract ReadJsonString
+//@   ensures ret1 == nil ==> validNode(ret0)
+
+//@ contract ReadMergeString
+//@   ensures ret1 == nil ==> validDiff(ret0)
+//@   carries C18
+
 //@ contract writePointer
 //@   requires validNodes(path)
 //@   carries C18
